@@ -2,6 +2,7 @@ import BedVerif.Model.Store
 import BedVerif.Lemmas.C09Le
 import BedVerif.Lemmas.C09Write
 import BedVerif.Lemmas.C09Read
+import BedVerif.Lemmas.C09BufRead
 /-!
 # C09 — sort chunks survive short writes, short reads and surface I/O errors
 
@@ -10,8 +11,9 @@ buffer or fail hard; every `read` call may return fewer bytes, be interrupted, o
 `write_all`, `read_exact` and `BufWriter` are transcribed from std. The theorems quantify over ALL
 fault plans (any number of faults, any positions), all record lists and all payload sizes
 (below, at and above the `BufWriter` capacity — the capacity itself is a parameter).
-The lz4 encoder/decoder and `BufReader` stacks are not modelled: for them the correspondence check
-applies the specification directly to the implementation's behaviour.
+`BufReader` (the uncompressed read stack of `ExternalChunk::new`) is transcribed from std as well
+(`Model/BufRead.lean`), with its capacity as a parameter. The lz4 encoder/decoder is not modelled: for it
+the correspondence check applies the specification directly to the implementation's behaviour.
 -/
 namespace BV
 
@@ -81,6 +83,29 @@ theorem C09_read_error_surfaces (plan : List RFault) (ps : List Bytes) (hne : ps
     chunkItems (ps.length + 1) ⟨frames ps, .fail :: plan⟩ = [.err] := by
   have _ := hne  -- holds for the empty chunk too
   exact chunkItems_fail_first ps plan ps.length
+
+/-- through `BufReader` of ANY capacity (0 included), under any plan of short reads and interrupts: every
+record, identical and in order, then the end -/
+theorem C09_bufread_ok (cap : Nat) (plan : List RFault) (h : NoHardR plan) (ps : List Bytes) (hp : PayloadsFit ps) :
+    chunkItemsBuf (ps.length + 1) ⟨cap, [], ⟨frames ps, plan⟩⟩ = ps.map .ok :=
+  chunkItemsBuf_ok cap ps plan h hp
+
+/-- … and under ANY read plan: a prefix of the dumped records, unaltered and in order, then at most one
+error item; a chunk that ends without an error item is complete -/
+theorem C09_bufread_never_silent (cap : Nat) (plan : List RFault) (ps : List Bytes) (hp : PayloadsFit ps) :
+    ∃ k, k ≤ ps.length ∧
+      (chunkItemsBuf (ps.length + 1) ⟨cap, [], ⟨frames ps, plan⟩⟩ = (ps.take k).map .ok ++ [.err] ∨
+       (chunkItemsBuf (ps.length + 1) ⟨cap, [], ⟨frames ps, plan⟩⟩ = (ps.take k).map .ok ∧ k = ps.length)) :=
+  chunkItemsBuf_any cap ps plan hp
+
+/-- a hard error on the first storage read is the first item -/
+theorem C09_bufread_error_surfaces (cap : Nat) (plan : List RFault) (ps : List Bytes) :
+    chunkItemsBuf (ps.length + 1) ⟨cap, [], ⟨frames ps, .fail :: plan⟩⟩ = [.err] :=
+  chunkItemsBuf_fail_first cap ps plan ps.length
+
+/-- witness: capacity 4 (below the 8-byte header), short reads and an interrupt -/
+example : chunkItemsBuf 3 ⟨4, [], ⟨frames [[1, 2, 3], [4]], [.give 3, .interrupted, .give 1, .give 100, .give 2]⟩⟩
+    = [.ok [1, 2, 3], .ok [4]] := by decide +kernel
 
 /-- witness of the repaired defect: a 20-byte record through a 16-byte `BufWriter` over a storage whose
 second write accepts 5 bytes -/
